@@ -346,6 +346,7 @@ var (
 	allLoops    []*loopRec
 	loopDefs    []*loopRec // in completion order (inner before outer)
 	cursorSites []Site
+	fnRank      [][]int // [f][kind]: rank in the non-advancing call graph of that kind; nil if some such graph has a cycle
 )
 
 // ---------- translation context ----------
@@ -1822,6 +1823,7 @@ func extractLoops(pkgs []*packages.Package, facts *Facts, leanDir string) {
 	}
 	classifyHow()
 	checkAssumed(facts)
+	nonAdvancingCallGraph(facts)
 	writeLoopsLean(leanDir)
 	// facts
 	var recs []*loopRec
@@ -1917,6 +1919,112 @@ func checkAssumed(facts *Facts) {
 		fmt.Fprintf(os.Stderr, "extract: loops: stale entry in %s (the loop certifies or no longer exists): %s\n", path, k)
 	}
 	facts.Counts["loops_assumed_mismatch"] = mism
+}
+
+// nonAdvancingCallGraph: edge (f,k) -> (g,k) when f, entered on a token of kind k, can call g with the cursor still on
+// that token.  A cycle is a recursion that need not consume anything.  (Diagnostic for the missing global argument.)
+func nonAdvancingCallGraph(facts *Facts) {
+	type node struct{ f, k int }
+	edges := map[int]map[int]TS{} // f -> g -> kinds
+	for _, f := range fnList {
+		m := map[int]TS{}
+		callSiteHook = func(g int, n TS) { m[g] = m[g].or(n) }
+		goAna(f.body, st{n: tsAll})
+		callSiteHook = nil
+		edges[f.idx] = m
+	}
+	// per kind: DFS for cycles
+	var cyc []string
+	nEdges := 0
+	for _, m := range edges {
+		nEdges += len(m)
+	}
+	for k := 0; k < tokK; k++ {
+		color := make([]int, len(fnList))
+		var stack []int
+		var dfs func(f int) bool
+		dfs = func(f int) bool {
+			color[f] = 1
+			stack = append(stack, f)
+			var gs []int
+			for g, ks := range edges[f] {
+				if ks.has(k) {
+					gs = append(gs, g)
+				}
+			}
+			sort.Ints(gs)
+			for _, g := range gs {
+				if color[g] == 1 {
+					var names []string
+					on := false
+					for _, s := range stack {
+						if s == g {
+							on = true
+						}
+						if on {
+							names = append(names, fnList[s].name)
+						}
+					}
+					cyc = append(cyc, fmt.Sprintf("kind %s: %s -> %s", tokName[k], strings.Join(names, " -> "), fnList[g].name))
+					return true
+				}
+				if color[g] == 0 && dfs(g) {
+					return true
+				}
+			}
+			stack = stack[:len(stack)-1]
+			color[f] = 2
+			return false
+		}
+		for f := range fnList {
+			if color[f] == 0 {
+				stack = stack[:0]
+				if dfs(f) {
+					break
+				}
+			}
+		}
+	}
+	// per-kind ranks: rank_k(f) = length of the longest chain of non-advancing calls from f on a token of kind k
+	fnRank = nil
+	if len(cyc) == 0 {
+		fnRank = make([][]int, len(fnList))
+		for f := range fnRank {
+			fnRank[f] = make([]int, tokK)
+		}
+		maxRank := 0
+		for k := 0; k < tokK; k++ {
+			done := make([]bool, len(fnList))
+			var rk func(f int) int
+			rk = func(f int) int {
+				if done[f] {
+					return fnRank[f][k]
+				}
+				r := 0
+				for g, ks := range edges[f] {
+					if ks.has(k) {
+						if v := rk(g) + 1; v > r {
+							r = v
+						}
+					}
+				}
+				fnRank[f][k] = r
+				done[f] = true
+				return r
+			}
+			for f := range fnList {
+				if r := rk(f); r > maxRank {
+					maxRank = r
+				}
+			}
+		}
+		facts.Counts["nonadvancing_call_rank_max"] = maxRank
+	} else {
+		facts.Counts["nonadvancing_call_rank_max"] = -1
+	}
+	facts.Counts["nonadvancing_call_edges"] = nEdges
+	facts.Counts["nonadvancing_call_cycles_kinds"] = len(cyc)
+	facts.Tables["nonadvancing_call_cycles"] = cyc
 }
 
 func lessPos(a, b token.Pos) bool {
@@ -2110,6 +2218,34 @@ func writeLoopsLean(dir string) {
 		fmt.Fprintf(&sb, "\n    /- %d %s -/ %s", i, r.name, tsLean(r.fset))
 	}
 	sb.WriteString("]\n\n")
+	// ranks
+	sb.WriteString("/-- PROPOSED ranks for the non-advancing call graph (checked by `rankOK`): per function, groups of kinds with the\n    length of the longest chain of calls that can be entered from it without consuming a token of that kind.\n    Empty if the translator found a cycle (then `rankOK` fails). -/\ndef ranks : Array RankTbl := #[")
+	for i, r := range fnList {
+		if i > 0 {
+			sb.WriteString(",")
+		}
+		fmt.Fprintf(&sb, "\n  /- %d %s -/ [", i, r.name)
+		if fnRank != nil {
+			groups := map[int]TS{}
+			var vals []int
+			for k := 0; k < tokK; k++ {
+				v := fnRank[i][k]
+				if _, ok := groups[v]; !ok {
+					vals = append(vals, v)
+				}
+				groups[v] = groups[v].or(tsOf(k))
+			}
+			sort.Ints(vals)
+			for j, v := range vals {
+				if j > 0 {
+					sb.WriteString(", ")
+				}
+				fmt.Fprintf(&sb, "(%s, %d)", tsLean(groups[v]), v)
+			}
+		}
+		sb.WriteString("]")
+	}
+	sb.WriteString("]\n\n")
 	// inventory
 	var recs []*loopRec
 	recs = append(recs, allLoops...)
@@ -2119,8 +2255,8 @@ func writeLoopsLean(dir string) {
 		if l.cbody != nil {
 			body = l.name + "c"
 		}
-		return fmt.Sprintf("{ pos := %s, func := %s, ord := %d, kind := .%s, cond := %s, S := %s, body := %s }",
-			lstr(l.Pos), lstr(l.Func), l.Ord, l.Kind, lstr(l.Cond), tsLean(l.set), body)
+		return fmt.Sprintf("{ pos := %s, func := %s, ord := %d, kind := .%s, cond := %s, S := %s, body := %s, fbody := %s }",
+			lstr(l.Pos), lstr(l.Func), l.Ord, l.Kind, lstr(l.Cond), tsLean(l.set), body, l.name)
 	}
 	var good, badl []*loopRec
 	for _, l := range recs {
